@@ -572,7 +572,27 @@ def sorted_(it, key=None, reverse=False):
     return out
 
 
+class _SymEnumerate:
+    """`enumerate(seq)` of a symbolic sequence: iterates natively (index, element); a `for` loop under a loop
+    contract recognises it (loops.for_begin) and cuts it like a loop over `seq`, handing the body (start + i, seq[i])"""
+
+    def __init__(self, seq, start):
+        self.seq, self.start = seq, start
+
+    def __iter__(self):
+        i = self.start
+        for x in self.seq:
+            yield i, x
+            i += 1
+
+
 def enumerate_(it, start=0):
+    if (_b.isinstance(it, SymList) or type(it).__name__ == "SymVec") and _ctx.active():   # (SymVec: pyvc/vec.py lists)
+        return _SymEnumerate(it, start)     # additive: same (index, element) pairs as the generator below
+    return _enumerate_gen(it, start)
+
+
+def _enumerate_gen(it, start):
     i = start
     for x in it:
         yield i, x
